@@ -410,3 +410,97 @@ func checkExpiryIsCompareAndDelete(p *Prog, r *Roles, res *Result, rule string) 
 		res.und(rule, "memkv: expiry timer", "-", "no time.AfterFunc callback found")
 	}
 }
+
+// checkAbsentIsNil (C11-R18): the in-process engine's lookup answers nil for "no such key" and the stored slice
+// otherwise, and a stored value may be empty. Its conditional operations must therefore decide presence by comparing
+// the lookup's result with nil; a test of its length files a key that holds an empty value under "absent"
+// (put-if-absent overwrites it, a CAS that expects the empty value fails), which the engines that decide by their
+// not-found error do not do.
+func checkAbsentIsNil(p *Prog, res *Result, rule string) {
+	sp := p.ssaPkg("pkg/storage/memkv")
+	// lookups: functions of the package whose first result is a []byte and is the constant nil on some path, or the
+	// first result of another lookup
+	lookups := map[*ssa.Function]bool{}
+	firstOf := func(v ssa.Value) ssa.Value {
+		v = resolve(v)
+		if ex, ok := v.(*ssa.Extract); ok && ex.Index == 0 {
+			return ex.Tuple
+		}
+		return v
+	}
+	for changed := true; changed; {
+		changed = false
+		for _, f := range p.AllFuncs {
+			if f.Pkg != sp || f.Blocks == nil || f.Signature.Results().Len() == 0 || lookups[f] {
+				continue
+			}
+			sl, ok := f.Signature.Results().At(0).Type().Underlying().(*types.Slice)
+			if !ok {
+				continue
+			}
+			if b, ok := sl.Elem().Underlying().(*types.Basic); !ok || b.Kind() != types.Byte {
+				continue
+			}
+			for _, b := range f.Blocks {
+				ret, ok := b.Instrs[len(b.Instrs)-1].(*ssa.Return)
+				if !ok || len(ret.Results) == 0 {
+					continue
+				}
+				v := firstOf(ret.Results[0])
+				if isNilConst(v) {
+					lookups[f], changed = true, true
+				} else if c, ok := v.(*ssa.Call); ok && lookups[c.Common().StaticCallee()] {
+					lookups[f], changed = true, true
+				}
+			}
+		}
+	}
+	n := 0
+	for _, f := range p.AllFuncs {
+		if f.Pkg != sp || f.Blocks == nil {
+			continue
+		}
+		for _, c := range callsIn(f) {
+			call, ok := c.(*ssa.Call)
+			if !ok || !lookups[call.Common().StaticCallee()] || call.Referrers() == nil {
+				continue
+			}
+			n++
+			construct := fmt.Sprintf("%s: result of %s #%d", funcName(f), call.Common().StaticCallee().Name(), n)
+			var bad ssa.Instruction
+			var uses []ssa.Instruction
+			for _, ref := range *call.Referrers() {
+				if ex, ok := ref.(*ssa.Extract); ok && ex.Index == 0 && ex.Referrers() != nil {
+					uses = append(uses, *ex.Referrers()...)
+				} else {
+					uses = append(uses, ref)
+				}
+			}
+			for _, ref := range uses {
+				lc, ok := ref.(*ssa.Call)
+				if !ok {
+					continue
+				}
+				if bi, ok := lc.Common().Value.(*ssa.Builtin); !ok || bi.Name() != "len" || lc.Referrers() == nil {
+					continue
+				}
+				for _, r2 := range *lc.Referrers() {
+					if bo, ok := r2.(*ssa.BinOp); ok && (isZeroConst(bo.X) || isZeroConst(bo.Y)) {
+						switch bo.Op {
+						case token.EQL, token.NEQ, token.GTR, token.LSS, token.LEQ, token.GEQ:
+							bad = bo
+						}
+					}
+				}
+			}
+			if bad != nil {
+				res.bad(rule, construct, p.pos(bad.Pos()), "the presence of the key is decided by the length of the looked-up value: a key that holds an empty value counts as absent (put-if-absent overwrites it and lets the rest of the batch through, a compare-and-swap that expects the empty value fails), unlike on the engines that decide by their not-found error")
+			} else {
+				res.ok(rule, construct, p.pos(call.Pos()), "not tested by length")
+			}
+		}
+	}
+	if n == 0 {
+		res.und(rule, "memkv: lookup", "-", "no call of a nil-for-absent lookup found")
+	}
+}
